@@ -983,10 +983,15 @@ class WebSocketProtocol13(WebSocketProtocol):
 
         'key' is the websocket handshake challenge/response key.
         """
-        assert headers["Upgrade"].lower() == "websocket"
-        assert headers["Connection"].lower() == "upgrade"
+        if headers.get("Upgrade", "").lower() != "websocket":
+            raise ValueError("Invalid Upgrade header in WebSocket handshake response")
+        if headers.get("Connection", "").lower() != "upgrade":
+            raise ValueError(
+                "Invalid Connection header in WebSocket handshake response"
+            )
         accept = self.compute_accept_value(key)
-        assert headers["Sec-Websocket-Accept"] == accept
+        if headers.get("Sec-Websocket-Accept") != accept:
+            raise ValueError("Invalid Sec-WebSocket-Accept in handshake response")
 
         extensions = self._parse_extensions_header(headers)
         for ext in extensions:
